@@ -564,3 +564,76 @@ Proof.
     intros s0 a s1 A B C. exact (ff_inv_step ne s0 a s1 A B C). }
   destruct Hinv as (Hcl & _). specialize (Hcl c). rewrite Hd in Hcl. exact Hcl.
 Qed.
+
+(* Provenance of every answer, in every trace: a cached answer is a version that was stored
+   completely (never the reader of an in-flight body), an error is only ever handed out after
+   a shared fetch has failed. *)
+Definition prov_resp (s : state) (r : resp) : Prop :=
+  match r with
+  | RStored v => In v (stored s)
+  | RPrivate _ _ => True
+  | RError => 0 < faults s
+  end.
+
+Definition prov_ph (s : state) (p : phase) : Prop :=
+  match p with
+  | Post (PCached v _) => In v (stored s)
+  | Post (PHave r) | Done r => prov_resp s r
+  | _ => True
+  end.
+
+Definition prov_inv (s : state) : Prop :=
+  (forall v b, cache s = Some (v, b) -> In v (stored s)) /\
+  (forall c, prov_ph s (ph s c)) /\
+  match stage_of s with
+  | Some (SResult (FCached v)) => In v (stored s)
+  | Some (SResult FError) => 0 < faults s
+  | _ => True
+  end /\ 0 <= faults s.
+
+Lemma prov_inv_init ks : prov_inv (init ks).
+Proof.
+  unfold prov_inv, stage_of; cbn. repeat split; auto; try lia.
+  intros v b H. destruct ks; cbn in *; inv H; auto.
+Qed.
+
+Lemma prov_ph_mono s s' p :
+  (forall v, In v (stored s) -> In v (stored s')) -> faults s <= faults s' ->
+  prov_ph s p -> prov_ph s' p.
+Proof.
+  intros Hs Hf. destruct p as [| |[v b|[v|k n|]|]|[v|k n|]|]; cbn; auto; lia.
+Qed.
+
+Lemma prov_inv_step s a s' : prov_inv s -> lts_step s a = Some s' -> prov_inv s'.
+Proof.
+  intros (Hc & Hcl & Hfl & Hf0) Hstep.
+  destruct a; step_cases Hstep;
+    try (client_fact Hcl c Hcc);
+    know_stage Hfl; unfold prov_inv, stage_of; state_cbn;
+    repeat match goal with E : flight_ _ = _ |- _ => rewrite E end; state_cbn;
+    repeat match goal with E : fl_stage _ = _ |- _ => rewrite E end.
+  all: repeat split; auto; try lia; try (intros; congruence).
+  all: try (let c0 := fresh "c0" in intros c0; pose proof (Hcl c0); unfold upd;
+            try match goal with |- context [c0 =? ?c] => destruct (c0 =? c) eqn:? end;
+            try (eapply prov_ph_mono; [| |eassumption]; state_cbn; cbn; auto; lia);
+            cbn; auto; fail).
+  all: try (let Q := fresh "Q" in intros ? ? Q;
+            try match goal with E : cache _ = _ |- _ =>
+              tryif constr_eq E Q then fail else rewrite E in Q end; inv Q;
+            first [left; reflexivity | eapply Hc; reflexivity | eapply Hc; eauto]; fail).
+  all: try (first [left; reflexivity | eapply Hc; reflexivity]; fail).
+  - intros c0. specialize (Hcl c0). destruct (ph s c0); cbn in *; auto.
+    destruct r; cbn; auto.
+  - assert (In z (stored s)) by (eapply Hc; reflexivity).
+    intros c0; pose proof (Hcl c0); unfold upd. destruct (c0 =? c); cbn; auto.
+Qed.
+
+Theorem answer_provenance : forall ks tr s,
+  run (init ks) tr = Some s ->
+  forall c r, ph s c = Done r -> prov_resp s r.
+Proof.
+  intros ks tr s Hrun c r Hd.
+  assert (Hinv : prov_inv s)
+    by exact (run_invariant_all prov_inv prov_inv_step tr (init ks) s (prov_inv_init ks) Hrun).
+  destruct Hinv as (_ & Hcl & _). specialize (Hcl c). rewrite Hd in Hcl. exact Hcl.
+Qed.
